@@ -1,0 +1,56 @@
+package ops
+
+import (
+	"sort"
+
+	"gorgonia.org/tensor"
+)
+
+// ReduceFn reduces the given axes of a tensor, like the Max and Min methods of tensor.Dense.
+type ReduceFn func(t *tensor.Dense, along ...int) (*tensor.Dense, error)
+
+// ReduceAxes reduces the given axes (non-negative, without duplicates) of the input with the given
+// reduce function. The reduction of the tensor package is only reliable for the first, the second
+// and the last axis of a tensor, so unless all axes are reduced at once, the axes are reduced
+// one by one on a 3D view of the tensor: (elements before the axis, axis, elements after the axis).
+// The input tensor itself is not changed.
+func ReduceAxes(input *tensor.Dense, axes []int, reduce ReduceFn) (*tensor.Dense, error) {
+	shape := input.Shape().Clone()
+
+	if len(axes) == 0 || len(axes) >= len(shape) {
+		return reduce(input, axes...)
+	}
+
+	// Start with the last axis, such that the indices of the other axes remain valid.
+	descendingAxes := append([]int{}, axes...)
+	sort.Sort(sort.Reverse(sort.IntSlice(descendingAxes)))
+
+	current, ok := input.Clone().(*tensor.Dense)
+	if !ok {
+		return nil, ErrTypeAssert("*tensor.Dense", input.Clone())
+	}
+
+	for _, axis := range descendingAxes {
+		nBefore := NElements(shape[:axis]...)
+		nAfter := NElements(shape[axis+1:]...)
+
+		if err := current.Reshape(nBefore, shape[axis], nAfter); err != nil {
+			return nil, err
+		}
+
+		reduced, err := reduce(current, 1)
+		if err != nil {
+			return nil, err
+		}
+
+		shape = append(shape[:axis], shape[axis+1:]...)
+
+		if err := reduced.Reshape(shape...); err != nil {
+			return nil, err
+		}
+
+		current = reduced
+	}
+
+	return current, nil
+}
